@@ -83,10 +83,42 @@ func (c *lenientScanner) UnreadRune() error {
 	return nil
 }
 
+// garbageScanner returns a rune other than 0 together with io.EOF.
+type garbageScanner struct{ runeScanner }
+
+func (c *garbageScanner) ReadRune() (rune, int, error) {
+	r, w, err := c.runeScanner.ReadRune()
+	if err != nil {
+		return 'x', 0, err
+	}
+	return r, w, nil
+}
+
+// readerFunc is an io.Reader whose dynamic type is not comparable.
+type readerFunc func([]byte) (int, error)
+
+func (f readerFunc) Read(p []byte) (int, error) { return f(p) }
+
+// sliceReader is an io.Reader (a struct value with a slice field) that is not comparable either.
+type sliceReader struct {
+	r   *strings.Reader
+	pad []byte
+}
+
+func (s sliceReader) Read(p []byte) (int, error) { return s.r.Read(p) }
+
 func source(kind, s string) interface{} {
 	switch kind {
 	case "lenient":
 		return &lenientScanner{s: s}
+	case "garbage":
+		return &garbageScanner{runeScanner{s: s}}
+	case "func-reader":
+		return readerFunc(strings.NewReader(s).Read)
+	case "slice-reader":
+		return sliceReader{r: strings.NewReader(s)}
+	case "bytes.Buffer":
+		return bytes.NewBufferString(s)
 	case "bytes":
 		return []byte(s)
 	case "reader":
@@ -137,7 +169,12 @@ func handle(r wproto.Req) (resp wproto.Resp) {
 				cmds = []ast.Command{c}
 			}
 		} else {
-			cmds, _, err = parser.ParseCommands(env(r), "w", source(r.Kind, r.Src))
+			src := source(r.Kind, r.Src)
+			cmds, _, err = parser.ParseCommands(env(r), "w", src)
+			if r.Again {
+				// a second call on the same source object (whatever it finds there)
+				parser.ParseCommands(env(r), "w", src)
+			}
 		}
 		resp.NCmds = len(cmds)
 		if err != nil {
